@@ -495,6 +495,15 @@ class InvokeDefinition:
         )
         self.id: str = invoke_id
         self.src: Optional[str] = config.get("src")
+        # 🛡️ `src` is the key the service is looked up by. A truthy non-string
+        #    was accepted here; an unhashable one then failed with a raw
+        #    TypeError on entry, any other never matched a service.
+        if self.src and not isinstance(self.src, str):
+            raise InvalidConfigError(
+                f"State '{source.id}' has an invoke with an invalid 'src' of "
+                f"type '{type(self.src).__name__}'. Expected the name of a "
+                f"service as a string."
+            )
         self.input: Optional[Dict[str, Any]] = config.get("input")
         self.source: "StateNode" = source
         self.on_done: List[TransitionDefinition] = on_done
